@@ -56,6 +56,15 @@ def main(argv=None):
                     selftest.report_for(ctx)
                 except Exception as ex:   # the self-test never masks or creates a verdict
                     ctx.info.append('selftest failed to run: %s: %s' % (type(ex).__name__, ex))
+                # the normaliser (inlining, closed forms) is trusted by every rule: its differential tests run with the thorough tier
+                import subprocess
+                for t in ('test_inline.py', 'test_canon.py'):
+                    r = subprocess.run([sys.executable, os.path.join(os.path.dirname(os.path.abspath(__file__)), '..', 'tools', t)],
+                                       capture_output=True, text=True)
+                    last = (r.stdout.strip().splitlines() or ['?'])[-1]
+                    ctx.info.append('engine %s: %s' % (t, last))
+                    if r.returncode != 0:
+                        ctx.errors.append(('engine', '%s failed: %s' % (t, last)))
             if args.list:
                 for o in ctx.obs:
                     print('  [%s] %s %s -- %s' % (o.status, o.key, o.where, o.msg))
